@@ -1,0 +1,13 @@
+//go:build verif
+
+// Verification export shim (hook H3, used by /verif/checks/c20 leg "admission").
+// exported names for unexported closures of package gemmill and changes no behaviour.
+
+package gemmill
+
+var (
+	// VerifAuthByCA is authByCA: func(conf *viper.Viper, ppValidators **types.ValidatorSet) func(*p2p.NodeInfo) error
+	VerifAuthByCA = authByCA
+	// VerifRefuseListFilter is refuseListFilter: func(*refuse_list.RefuseList) func(crypto.PubKey) error
+	VerifRefuseListFilter = refuseListFilter
+)
